@@ -243,6 +243,9 @@ def compare(pid, cfg, lines, impl, model, findings):
                                            "why": "model driver rejected the op"})
             continue
         m, s, sig = parts
+        if sig in cfg.get("ignore_sigs", ()):
+            # a deviation that belongs to a sister property sharing this stream: decided there
+            s, sig = "-", "-"
         if s != "-":
             stats["constrained"] += 1
             distinct.add(hashlib.md5(l.encode()).digest())
@@ -278,6 +281,63 @@ def case_of(lines, idx):
 
 
 cfg_stateless = True
+
+
+def case_start(lines, idx):
+    a = idx
+    while a > 0 and not lines[a].startswith("# case"):
+        a -= 1
+    return a
+
+
+def case_upto(lines, idx):
+    """replayable prefix: the case header and its ops up to and including line idx
+    (stateless streams: just that line)."""
+    a = case_start(lines, idx)
+    if cfg_stateless:
+        return ([lines[a]] if lines[a].startswith("#") else []) + [lines[idx]]
+    return lines[a:idx + 1]
+
+
+def same_failure(d, e):
+    return (d["sig"] == e["sig"]) and ((d["impl"] != d["model"]) == (e["impl"] != e["model"])) and \
+        ((d["spec"] != "-" and d["impl"] != d["spec"]) == (e["spec"] != "-" and e["impl"] != e["spec"]))
+
+
+def shrink(pid, cfg, ops, d, findings, budget=120):
+    """greedy delta debugging on the op lines of one case: drop chunks while some line still
+    fails the same way."""
+    if cfg_stateless or len(ops) <= 2:
+        return ops
+    head, body = ops[0:1], ops[1:]
+    def still_fails(cand):
+        ls = head + cand
+        im, e1 = run_impl(ls)
+        mo, e2 = run_model(ls)
+        if e1 or e2:
+            return False
+        st = compare(pid, cfg, ls, im, mo, findings)
+        return any(same_failure(d, e) for e in st["spec_failures"] + st["disagreements"])
+    n = 2
+    evals = 0
+    while len(body) >= 2 and evals < budget:
+        chunk = max(1, len(body) // n)
+        removed = False
+        for i in range(0, len(body), chunk):
+            cand = body[:i] + body[i + chunk:]
+            evals += 1
+            if cand and still_fails(cand):
+                body = cand
+                n = max(n - 1, 2)
+                removed = True
+                break
+            if evals >= budget:
+                break
+        if not removed:
+            if chunk == 1:
+                break
+            n = min(n * 2, len(body))
+    return head + body
 
 
 def write_replay(pid, kind, detail, ops, extra=None):
@@ -408,47 +468,51 @@ def main():
             path = write_replay(pid, "driver-died", {"broken": e2}, [])
             violations.append((path, True, "model driver died"))
         stats = compare(pid, cfg, lines, impl, model, findings)
-        # unlisted impl-vs-spec failures: genuine failing inputs
-        seen_sig = set()
-        for d in stats["spec_failures"]:
+        # all failing lines, earliest first; for stateful streams only the first failing line of
+        # a case is meaningful (later ops run on diverged state)
+        fails = sorted(stats["spec_failures"] + stats["disagreements"], key=lambda d: d["line"])
+        if not cfg_stateless:
+            firsts, seen_cases = [], set()
+            for d in fails:
+                c = case_start(lines, d["line"])
+                if c not in seen_cases:
+                    seen_cases.add(c)
+                    firsts.append(d)
+            fails = firsts
+        def is_failing_input(d):
+            return d["spec"] != "-" and d["impl"] != d["spec"]
+        real = [d for d in fails if is_failing_input(d)]
+        stale = [d for d in fails if not is_failing_input(d)]
+        reported = set()
+        for d in real:
             key = (d["sig"], d["op"].split()[1] if len(d["op"].split()) > 1 else "")
-            if key in seen_sig:
+            if key in reported or len(reported) >= 3:
                 continue
-            seen_sig.add(key)
-            path = write_replay(pid, "spec-failure", d, case_of(lines, d["line"]))
-            violations.append((path, False, "impl deviates from spec: " + d["sig"]))
-        # impl-vs-model disagreements
-        seen = set()
-        for d in stats["disagreements"]:
+            reported.add(key)
+            ops = shrink(pid, cfg, case_upto(lines, d["line"]), d, findings)
+            path = write_replay(pid, "failing-input", d, ops)
+            violations.append((path, False, "impl deviates from spec (%s): %s" % (d["why"], d["sig"])))
+        if stale and not real:
+            # the model no longer describes the code, but the code met the spec on those lines:
+            # search wider for an input on which the property itself fails
+            d = stale[0]
             key = d["op"].split()[1] if len(d["op"].split()) > 1 else ""
-            if key in seen:
-                continue
-            seen.add(key)
-            failing = d["spec"] != "-" and d["impl"] != d["spec"]
-            if failing:
-                path = write_replay(pid, "disagreement", d, case_of(lines, d["line"]))
-                violations.append((path, False, "impl differs from model and from spec"))
+            extra = []
+            for st in cfg.get("streams", [cfg["stream"]]):
+                extra += gen_ops(st, seed + 7919, ncases * (20 if tier == "thorough" else 4))
+            im2, _ = run_impl(extra)
+            mo2, _ = run_model(extra)
+            st2 = compare(pid, cfg, extra, im2, mo2, findings)
+            cand = sorted([x for x in st2["spec_failures"] + st2["disagreements"] if is_failing_input(x)], key=lambda x: x["line"])
+            if cand:
+                ops = shrink(pid, cfg, case_upto(extra, cand[0]["line"]), cand[0], findings)
+                path = write_replay(pid, "failing-input", cand[0], ops,
+                                    extra=["first correspondence break: " + json.dumps(d)[:1500]])
+                violations.append((path, False, "correspondence broke; search found a failing input"))
             else:
-                # model is stale here but impl still meets the spec on this line: search wider
-                found = None
-                if not stats["spec_failures"]:
-                    extra = []
-                    for st in cfg.get("streams", [cfg["stream"]]):
-                        extra += gen_ops(st, seed + 7919, ncases * (20 if tier == "thorough" else 4))
-                    im2, _ = run_impl(extra)
-                    mo2, _ = run_model(extra)
-                    st2 = compare(pid, cfg, extra, im2, mo2, findings)
-                    cand = st2["spec_failures"] + [x for x in st2["disagreements"] if x["spec"] != "-" and x["impl"] != x["spec"]]
-                    if cand:
-                        found = (cand[0], extra)
-                if found:
-                    path = write_replay(pid, "disagreement", found[0], case_of(found[1], found[0]["line"]),
-                                        extra=["first correspondence break: " + json.dumps(d)[:1500]])
-                    violations.append((path, False, "correspondence broke; search found a failing input"))
-                else:
-                    path = write_replay(pid, "correspondence", dict(d, broken="correspondence stream %s op %s" % (cfg["stream"], key)),
-                                        case_of(lines, d["line"]))
-                    violations.append((path, True, "correspondence broke on op " + key))
+                path = write_replay(pid, "correspondence", dict(d, broken="correspondence stream %s op %s: implementation and model differ" % (cfg["stream"], key)),
+                                    case_upto(lines, d["line"]))
+                violations.append((path, True, "correspondence broke on op " + key))
 
     # broken proof obligations
     if broken_theorems:
